@@ -397,52 +397,10 @@ def _check_letters(repo, rep):
 
 
 def _check_group_attrs(repo, rep):
-    svg = repo["svg"]
-    fn = svg.func("_try_remove_group")
-    F = "svg._try_remove_group"
-    rep.saw(F, "svg._is_removable_group", "svg._opacity", "svg._clamp")
-    top_if = [s for s in fn.body if isinstance(s, ast.If) and unparse(s.test) == "remove"]
-    ok = False
-    if top_if and top_if[0].orelse:
-        keep = top_if[0].orelse
-        txt = [unparse(s) for s in keep]
-        writes = [s for s in keep for w in ast.walk(s) if isinstance(w, ast.Assign) and "attrib[" in unparse(w.targets[0])]
-        keys = {unparse(w.targets[0]) for s in keep for w in ast.walk(s) if isinstance(w, ast.Assign) and "attrib[" in unparse(w.targets[0])}
-        cleared_first = txt and txt[0] == "group_el.attrib.clear()"
-        only_opacity = keys == {"group_el.attrib['opacity']"}
-        from_var = any(t == "group_el.attrib['opacity'] = ntos(opacity)" for t in txt)
-        dropped = any(t == "_drop_default_attrib(group_el.attrib)" for t in txt)
-        ok = cleared_first and only_opacity and from_var and dropped
-    if ok:
-        rep.ok("R-GUARD.group-attrs", f"{F}: kept group is cleared, then only `opacity` is written (defaults dropped)", "", True)
-    else:
-        rep.fail("R-GUARD.group-attrs", F, "group_el.attrib.clear(); group_el.attrib['opacity'] = ntos(opacity)",
-                 "a kept group can carry attributes other than opacity (or keeps its old attributes)", svg, fn)
-    # the value written and the value decided on are the same clamped quantity
-    dec = svg.func("_is_removable_group")
-    dtxt = unparse(dec)
-    decides_on = [c for c in ast.walk(dec) if isinstance(c, ast.Call) and call_name(c) == "_opacity"]
-    raw_reads = [n for n in ast.walk(dec) if (isinstance(n, ast.Subscript) and "attrib" in unparse(n.value) and "opacity" in unparse(n.slice))
-                 or (isinstance(n, ast.Call) and call_name(n).endswith("attrib.get") and n.args and "opacity" in unparse(n.args[0]))]
-    writes_from = "opacity = _opacity(group_el)" in unparse(fn)
-    if decides_on and not raw_reads and writes_from:
-        rep.ok("R-GUARD.group-attrs", "svg._is_removable_group / _try_remove_group: decision and written value both come from _opacity(el) (clamped)", "", True)
-    else:
-        rep.fail("R-GUARD.group-attrs", "svg._is_removable_group", "_opacity(el) in {0.0, 1.0}",
-                 "the keep/flatten decision reads the raw opacity attribute while the kept group is written with the clamped value: a group with an "
-                 "out-of-range opacity is kept with opacity 0 or 1 (or no attribute at all)", svg, dec)
-    op = svg.func("_opacity")
-    cl = svg.func("_clamp")
-    if "_clamp(float(el.attrib.get('opacity', 1.0)))" in unparse(op) and "max(min(value, maxv), minv)" in unparse(cl):
-        rep.ok("R-GUARD.group-attrs", "svg._opacity: clamped to [0, 1], default 1")
-    else:
-        rep.fail("R-GUARD.group-attrs", "svg._opacity", "_clamp(float(el.attrib.get('opacity', 1.0)))", "opacity is no longer clamped to [0,1] with default 1", svg, op)
-    ret = sorted([r for r in walk_no_nested(dec) if isinstance(r, ast.Return)], key=lambda r: r.lineno)
-    last = unparse(ret[-1].value) if ret else ""
-    if "num_children <= 1" in last and "in {0.0, 1.0}" in last and " or " in last or ("num_children < 2" in last and " or " in last):
-        rep.ok("R-GUARD.group-attrs", "svg._is_removable_group: removable iff <= 1 child or opacity in {0,1}", "so a kept group has >= 2 children and 0 < opacity < 1")
-    else:
-        rep.fail("R-GUARD.group-attrs", "svg._is_removable_group", last or "return", "the retention predicate no longer implies 'at least two children and 0 < opacity < 1' for kept groups", svg, dec)
+    """Kept groups have >= 2 children and carry only an opacity strictly between 0 and 1 (semantic, on the abstract DOM)."""
+    from sa.rules import groups
+    groups.check_removable_predicate(repo, rep, "R-GUARD.group-attrs", "a kept group must have at least two children and 0 < opacity < 1")
+    groups.check_try_remove_group(repo, rep, "R-GUARD.group-attrs", "a kept group must carry nothing but its opacity; a flattened one must vanish")
 
 
 def _check_simplify_sites(repo, rep, folder):
